@@ -139,7 +139,9 @@ def tlc(specdir, module, cfg, env=None, workers="auto", timeout=1800, extra=(), 
         for name, text in (files or {}).items():
             open(os.path.join(work, name), "w").write(text)
         e = dict(os.environ)
-        jopts = jvm or "-Xss512m"
+        # the JVM's default maximal heap is a quarter of the machine's memory PER PROCESS; checks run several TLCs
+        # at once (and several checks may run side by side), which got TLC killed by the kernel's OOM killer
+        jopts = jvm or ("-Xss512m -Xmx%s" % os.environ.get("VERIF_TLC_XMX", "6g"))
         e["JAVA_TOOL_OPTIONS"] = jopts
         if env:
             e.update({k: str(v) for k, v in env.items()})
